@@ -141,6 +141,9 @@ def names(desc, prob):
     if topo == "aerostruct":
         A = "AS_point_0."
         of = [A + "CL", A + "CD", A + "CM", A + "fuelburn", A + "wing_perf.failure", A + "L_equals_W", "wing.structural_mass"]
+        if desc.get("tail"):
+            of += [A + "tail_perf.failure", A + "tail_perf.CL"]
+            dvs += ["tail.twist_cp", "tail.thickness_cp"]
         return of, AS_WRT + dvs
     of = []
     for i in range(2):
@@ -276,7 +279,7 @@ def verdict(desc):
     if desc["topo"] != "aero":
         out.label("model=" + desc["model"])
         out.label("symmetric" if desc["mesh"]["kind"] == "left" else "fullspan")
-        for k in ("weight_relief", "fuel", "viscous", "wave", "compressible"):
+        for k in ("weight_relief", "fuel", "viscous", "wave", "compressible", "tail"):
             if desc.get(k):
                 out.label(k)
     else:
